@@ -2,7 +2,7 @@
    Models in C19/Model.v (recognize_horizontal = recognizer.rs over plane.rs queries; layout_h = the plane a drawing denotes),
    proofs in C19/Proofs.v.  The character grid -> plane step (canvas.rs) is not modelled: see the correspondence check. *)
 From Coq Require Import List NArith Bool Arith.
-From DV Require Import C19.Model C19.Proofs.
+From DV Require Import C19.Model C19.Proofs C19.Columns.
 Import ListNotations.
 
 (* headline, unbounded: for EVERY well-shaped table (any numbers of inputs, outputs, annotations and rules, any texts, with or
@@ -23,14 +23,45 @@ Theorem C19_columns_normalise : forall hp_text num_text t, wf t = true ->
   pivot (removelast (layout_columns hp_text num_text t)) = layout_h t.
 Proof. exact columns_normalise. Qed.
 
-(* ... PARTIAL: that the marker in the bottom-left corner and the rule numbers after the double line are detected on that plane
-   is proved for the bounded shapes only (finite sweep, concrete text conventions); missing: the unbounded detection proof
-   (it needs the hypotheses that the first input expression is not a marker text and the first output name not a number) *)
-Theorem C19_plane_roundtrip_columns_bounded_partial : forall n_in n_out n_ann n_rules lbl vals,
-  1 <= n_in <= 5 -> 1 <= n_out <= 3 -> n_ann <= 2 -> 1 <= n_rules <= 8 ->
-  let t := shape_table n_in n_out n_ann n_rules lbl vals in
-  recognize_plane sw_parse_hp sw_parse_num (layout_columns 77%N sw_num_text t) = Some (AsColumn, 1%N, n_rules, fields_of t).
-Proof. exact columns_roundtrip_bounded. Qed.
+(* ... and on the WHOLE rules-as-columns plane (pivoted table plane + the marker / rule-number line below) orientation, hit policy,
+   rule count and every field are read back, for EVERY table (any sizes, any texts) and any text parsers, under the two hypotheses
+   the detection needs (boolean predicates, C19/Columns.v): the first input expression is not read as a marker
+   (first_input_not_marker) and the text in the top-left cell of the output block - the label, or the first component name when
+   several outputs are drawn without a label - is not read as a number (first_output_not_number) *)
+Theorem C19_plane_roundtrip_columns : forall parse_hp parse_num hp_text hp num_text,
+  parse_hp hp_text = Some hp -> (forall k, parse_num (num_text k) = Some k) ->
+  forall t, wf t = true -> t_rules t <> [] ->
+  first_input_not_marker parse_hp t = true -> first_output_not_number parse_num t = true ->
+  recognize_plane parse_hp parse_num (layout_columns hp_text num_text t) = Some (AsColumn, hp, length (t_rules t), fields_of t).
+Proof. exact roundtrip_columns. Qed.
+
+(* the hypotheses are met by a non-trivial table (two outputs with label, one annotation, allowed values) ... *)
+Example C19_columns_nonvacuous :
+  let t := shape_table 2 2 1 2 true true in
+  wf t = true /\ first_input_not_marker sw_parse_hp t = true /\ first_output_not_number sw_parse_num t = true /\
+  first_out_text t = 5000%N /\ first_out_text (shape_table 2 2 1 2 false true) = 3000%N /\
+  length (layout_columns 77%N sw_num_text t) = 8 /\
+  recognize_plane sw_parse_hp sw_parse_num (layout_columns 77%N sw_num_text t) = Some (AsColumn, 1%N, 2, fields_of t).
+Proof. exact columns_nonvacuous. Qed.
+
+(* ... and they cannot be dropped: a table whose first input expression reads as a marker, and one whose first output name reads
+   as the number 2, are both REJECTED (None = Err; the code does the same: "expected left-below rule numbers placement",
+   "plane invalid rule number: 2"), not misread *)
+Theorem C19_columns_hypotheses_needed :
+  wf marker_first_table = true /\ first_input_not_marker sw_parse_hp marker_first_table = false /\
+  recognize_plane sw_parse_hp sw_parse_num (layout_columns 77%N sw_num_text marker_first_table) = None /\
+  wf number_first_table = true /\ first_output_not_number sw_parse_num number_first_table = false /\
+  recognize_plane sw_parse_hp sw_parse_num (layout_columns 77%N sw_num_text number_first_table) = None.
+Proof. exact columns_hypotheses_needed. Qed.
+
+(* which cells a pivoted plane contains: every cell is the pivoted image of a cell of the plane; its first line is the first
+   column of the plane, its first column the first line *)
+Theorem C19_pivot_cells : forall p r c, In r (pivot p) -> In c r -> exists r' c', In r' p /\ In c' r' /\ c = pivot_cell c'.
+Proof. exact in_pivot. Qed.
+
+Theorem C19_pivot_first_line_and_column : forall r p,
+  heads (pivot (r :: p)) = map pivot_cell r /\ (0 < length r -> exists rest, pivot (r :: p) = map pivot_cell (heads (r :: p)) :: rest).
+Proof. intros r p. split; [apply pivot_first_column|exact (pivot_first_row (r :: p))]. Qed.
 
 Theorem C19_pivot_involutive : forall p, rectangular p = true -> pivot (pivot p) = p.
 Proof. exact pivot_involutive. Qed.
@@ -86,7 +117,11 @@ Proof. exact nonvacuous19. Qed.
 Print Assumptions C19_plane_roundtrip_h.
 Print Assumptions C19_plane_roundtrip_rows.
 Print Assumptions C19_columns_normalise.
-Print Assumptions C19_plane_roundtrip_columns_bounded_partial.
+Print Assumptions C19_plane_roundtrip_columns.
+Print Assumptions C19_columns_nonvacuous.
+Print Assumptions C19_columns_hypotheses_needed.
+Print Assumptions C19_pivot_cells.
+Print Assumptions C19_pivot_first_line_and_column.
 Print Assumptions C19_pivot_involutive.
 Print Assumptions C19_size_validation_complete.
 Print Assumptions C19_crossings.
